@@ -39,6 +39,13 @@ RULE = ('exhaustive: every well-bracketed operation sequence up to the tier\'s l
         'characters of the by-name prefix "on_", contain "on_", are one character long, digits, upper case, '
         'non-ASCII, and pairs where one name is a prefix / suffix / "on_"-, "n_"-, "_"-extension of the other) and of '
         'the name of the callbacks that are not on_<event> ("on_", "on", "xon_<event>", "On_<event>", "<lambda>", ...). '
+        'Every emitter history is also run beside a SECOND emitter alive in the same process (a fresh EventEmitter or the '
+        'module-level global one; constructed before / after the judged one or half-way; running the same history, a short '
+        'fixed one or a random one, interleaved by a drawn schedule; with its own or with the same callback and sender '
+        'objects): the observations of the judged emitter - and of the second one when it runs the same history - must '
+        'equal the model of the history alone, and a callback of one emitter called by the other is seen as an unknown '
+        'function. A third of the reporter histories is run beside an unrelated EventEmitter that is constructed, reset, '
+        'silenced or emits complete/progress with the reporter as sender at drawn positions. '
         'Non-trivial = some emit called a '
         'callback or was silenced / some completion was announced; distinct = distinct abstract history.')
 EXHAUSTIVE = {'quick': True, 'thorough': True}
